@@ -116,6 +116,63 @@ theorem readMethodAttr_enc (p : Pool) (bsms : Option (List Bsm)) (a : SMethodAtt
           readUtf8Ref, u16_be16 _ h3, h4, hme, insertIfEmpty_none], ?_, ?_⟩
       · rw [hr1]
       · simpa using hr2
+  | annotations nc visible as =>
+    obtain ⟨h1, h2, h3, h4, h5⟩ := ha
+    have hread := readAnnotations_enc p as h3 h4 r
+    cases visible with
+    | true =>
+      obtain ⟨n1, n2, n3, n4, n5⟩ := methodNe_RVA
+      simp only [SMethodAttr.apply, if_true, Option.some.injEq] at h; subst h
+      simp only [if_true] at h2
+      refine ⟨{ mr with rva := mr.rva ++ as.map SAnno.fact }, by
+        simp only [readMethodAttr, SMethodAttr.raw, attrFrame, List.append_assoc, u16_be16 _ h1, ok_bind, h2, u32_be32 _ h5,
+          n1, n2, n3, n4, n5, if_false, if_true, hread, pure_eq], ?_, ?_⟩
+      · rw [hr1]
+      · simpa using hr2
+    | false =>
+      obtain ⟨n1, n2, n3, n4, n5, n6⟩ := methodNe_RIA
+      simp only [SMethodAttr.apply, Bool.false_eq_true, if_false, Option.some.injEq] at h; subst h
+      simp only [Bool.false_eq_true, if_false] at h2
+      refine ⟨{ mr with ria := mr.ria ++ as.map SAnno.fact }, by
+        simp only [readMethodAttr, SMethodAttr.raw, attrFrame, List.append_assoc, u16_be16 _ h1, ok_bind, h2, u32_be32 _ h5,
+          n1, n2, n3, n4, n5, n6, if_false, if_true, hread, pure_eq], ?_, ?_⟩
+      · rw [hr1]
+      · simpa using hr2
+  | annotationDefault nc e =>
+    obtain ⟨h1, h2, h3, h4⟩ := ha
+    obtain ⟨n1, n2, n3, n4, n5, n6, n7, n8, n9, n10, n11⟩ := methodNe_AnnotationDefault
+    simp only [SMethodAttr.apply, Option.some.injEq] at h; subst h
+    refine ⟨{ mr with annotationDefault := some e.fact }, by
+      simp only [readMethodAttr, SMethodAttr.raw, attrFrame, List.append_assoc, u16_be16 _ h1, ok_bind, h2, u32_be32 _ h4,
+        n1, n2, n3, n4, n5, n6, n7, n8, n9, n10, n11, if_false, if_true, decide_false, Bool.or_self, Bool.false_eq_true,
+        readAnnotationDefault_enc p e h3 r, pure_eq], ?_, ?_⟩
+    · rw [hr1]
+    · simpa using hr2
+  | methodParameters nc ps =>
+    obtain ⟨h1, h2, h3, h4⟩ := ha
+    obtain ⟨n1, n2, n3, n4, n5, n6, n7, n8, n9, n10, n11, n12⟩ := methodNe_MethodParameters
+    simp only [SMethodAttr.apply] at h
+    cases hc : m.params with
+    | some _ => simp [hc] at h
+    | none =>
+      simp only [hc, Option.isNone_none, if_true, Option.some.injEq] at h; subst h
+      have hme : mr.params = none := by rw [hr1]; exact hc
+      have hbody : (be8 ps.length ++ ps.flatMap (fun q => be16 q.1 ++ be16 q.2.2)).length < 4294967296 := by
+        have := length_flatMap_const (fun q : Nat × Option JStr × Nat => be16 q.1 ++ be16 q.2.2) 4 ps (fun _ _ => by simp [be16_length])
+        simp [be8, this]; omega
+      have hvec := readVec_flatMap (readMethodParam p) (fun q : Nat × Option JStr × Nat => be16 q.1 ++ be16 q.2.2)
+        (fun q => (⟨q.2.1, q.2.2 &&& maskParam⟩ : MethodParam)) ps
+        (fun q hq r => by
+          obtain ⟨k1, k2, k3⟩ := h4 q hq
+          simp [readMethodParam, List.append_assoc, u16_be16 _ k1, u16_be16 _ k2, k3]) r
+      have hcnt : u8 (be8 ps.length ++ (ps.flatMap (fun q => be16 q.1 ++ be16 q.2.2) ++ r)) =
+          ok (ps.length, ps.flatMap (fun q => be16 q.1 ++ be16 q.2.2) ++ r) := u8_be8 _ (by omega) _
+      refine ⟨{ mr with params := some (ps.map fun q => ⟨q.2.1, q.2.2 &&& maskParam⟩) }, by
+        simp only [readMethodAttr, SMethodAttr.raw, attrFrame, List.append_assoc, u16_be16 _ h1, ok_bind, h2, u32_be32 _ hbody,
+          n1, n2, n3, n4, n5, n6, n7, n8, n9, n10, n11, n12, if_false, if_true, decide_false, Bool.or_self, Bool.false_eq_true,
+          hcnt, hvec, hme, insertIfEmpty_none, pure_eq], ?_, ?_⟩
+      · rw [hr1]
+      · simpa using hr2
   | unknown nc name b =>
     obtain ⟨h1, h2, hnot, hlen⟩ := ha
     simp only [methodAttrNames, List.mem_cons, List.not_mem_nil, or_false, not_or] at hnot
